@@ -377,6 +377,13 @@ theorem step_allQ (s s' : St) (e : Ev) (h : AllQ s) (hs : step s e = some s') : 
       · simp at hs; subst hs; exact fr _ rfl rfl
       all_goals cases hs
     · cases hs
+  | envErr a e0 =>
+    simp only [step, stepI] at hs
+    split at hs
+    · split at hs
+      · simp at hs; subst hs; exact fr _ rfl rfl
+      all_goals cases hs
+    · cases hs
   | giveUp n =>
     simp only [step, stepI] at hs
     split at hs
